@@ -187,7 +187,7 @@ fn gen_pattern(rng: &mut Rng, jar: &mut Vec<AClass>, ci: usize, h: &Hier, kind: 
 		let ti = jar.iter().position(|c| c.name == target_cls).unwrap();
 		let mut m = em.clone();
 		if rng.chance(1, 2) { m.flags |= ACC_BRIDGE; }
-		if let Some(v) = m.calls.as_mut() { v[0].kind = *rng.pick(&[CallKind::Virtual, CallKind::Special][..]); }
+		if let Some(v) = m.calls.as_mut() { v[0].kind = *rng.pick(&[CallKind::Virtual, CallKind::Special][..]); if v[0].kind == CallKind::Virtual { v[0].iface_ref = false; } }
 		if !add_method(&mut jar[ti], m.clone(), allow_dup) { m.name = { let mut n = cps_str("syn$"); n.extend(&em.name); n }; add_method(&mut jar[ti], m, allow_dup); }
 		return;
 	}
